@@ -218,6 +218,7 @@ async def run_case(case):
             await env.settle()
         last = [v0, 0]
         written = {}
+        fired = []          # pv_e events in the order they were fired
 
         async def occur(k, kind):
             if kind in ("T", "F", "X"):
@@ -235,6 +236,7 @@ async def run_case(case):
                 if kind != "EX":
                     data["x"] = 1 if kind == "E1" else 0
                 written[k] = data
+                fired.append(data)
                 hass.bus.async_fire("pv_e", data)
             else:
                 hass.bus.async_fire("pv_o", {"n": k, "x": 1})
@@ -337,7 +339,6 @@ async def run_case(case):
             obs["look2"] = looks[:1]
         if others:
             std = {"trigger_type": "event", "event_type": "pv_e", "context": "Context"}
-            fired = [written[kk] for kk in sorted(written) if isinstance(written[kk], dict)]
             want = {"pv_ret_b": [dict(std, **w) for w in fired] if "wmut" in others else [],
                     "pv_ret_c": [dict(std, **w) for w in fired] if "w2" in others else [],
                     "pv_fn": [dict(std, pv_kw=7, **w) for w in fired] if "fnkw" in others else []}
